@@ -16,7 +16,12 @@ from vlib import *
 import gen_casttable
 
 PID = 'C02'
-THEOREMS = ['C02_u64_halving_is_rne_f64', 'C02_u64_halving_is_rne_f32', 'C02_sticky_bit_needed', 'C02_fp_rows_correct', 'C02_nonvacuous']
+THEOREMS = ['C02_u64_halving_is_rne_f64', 'C02_u64_halving_is_rne_f32', 'C02_sticky_bit_needed', 'C02_fp_rows_correct', 'C02_nonvacuous',
+            # package fpgen (Properties_C02_fpgen.v; Flocq): IEEE-754 spec of float/double/long double expressions, SSE and x87 machine models, the code gen_expr emits, correctness of whole trees
+            'C02_fp_typing', 'C02_fp_feq_meaning', 'C02_fp_neg_bits32', 'C02_fp_neg_bits64', 'C02_fp_arith', 'C02_fp_compare', 'C02_fp_swap', 'C02_fp_truth', 'C02_fp_rne_is_flocq',
+            'C02_fp_u64_to_float', 'C02_fp_u64_to_double', 'C02_fp_float_to_u64', 'C02_fp_double_to_u64', 'C02_fp_cast_rows', 'C02_fp_all_rows_modelled', 'C02_fp_expr_correct', 'C02_fp_run_correct',
+            'C02_fp_wt_modelled', 'C02_fp_expr_correct_wt', 'C02_fp_run_correct_wt', 'C02_fp_flatten_simulates', 'C02_fp_expr_code_correct', 'C02_ld_rows_in', 'C02_ld_value_correct',
+            'C02_ld_compare_correct', 'C02_ld_not_correct', 'C02_ld_cast_correct', 'C02_fp_expr_nonvacuous', 'C02_fp_nan_nonvacuous', 'C02_fp_rows_nonvacuous', 'C02_fp_table_text', 'C02_ld_nonvacuous']
 MODELRUN = os.path.join(VERIF, 'ocaml/modelrun')
 
 ITY = {'_Bool': (1, False), 'char': (8, True), 'signed char': (8, True), 'unsigned char': (8, False), 'short': (16, True), 'unsigned short': (16, False), 'int': (32, True), 'unsigned': (32, False),
@@ -58,7 +63,7 @@ def main():
         gen_casttable.gen(REPO, os.path.join(COQ, 'theories/Gen/CastTable.v'))
     except GenError as e:
         run.proof_broken.append('translator: ' + str(e))
-    run.check_proofs(deps=['theories/Proofs/FloatConvProofs.vo'])
+    run.check_proofs(deps=['theories/Proofs/FloatConvProofs.vo'], extra=['fpgen'])
     NCORPUS = run_corpus(run, PID, src)          # minimised past failures first
     chibi = os.path.join(src, 'chibicc')
     evals = 0; nontriv = 0; dist = {}; samples = []
@@ -217,14 +222,20 @@ def main():
             if c is None or c.get(key) != g[key]:
                 run.violation(dict(kind='promotion-or-rank', item=key, chibicc=(c or {}).get(key) if c else cw, gcc=g[key], program=text), dict(area='promotion', construct=key))
 
+    # ---------------- tie of package fpgen: typed floating trees: run-time bits = Flocq spec; -S text = jump-level model; hardware bits = model machine ----------------
+    if not os.environ.get('VERIF_SKIP_PROOFS'):
+        te, tn, td, ts = run_tie(run, 'fpgen', src, 400 if run.quick() else 4000, 'operator')
+        evals += te; nontriv += tn; dist['tie_fpgen'] = td; samples += ts
     cov = dict(evaluations=evals, distinct_nontrivial=nontriv, input_distribution=dist, samples=samples,
                rule='(a) %d conversions: 13 x 13 arithmetic type pairs at width boundaries, 2^24/2^53/2^63 +- 1, halfway cases above 2^63, denormals, infinities, NaN - every one C11 defines - at run time on volatile operands and as static initializers; (b) %d operator applications (+ - * / six comparisons, unary -, !, if/while truth, && ||, ?:) on float, double, long double over the boundary classes; (c) %d floating constants (decimal and hexadecimal, all suffixes, values that round differently in each format, sizeof of the constant); (d) variadic float promotion and mixed-rank arithmetic: object bytes = gcc' % (len(cases), len(ocases), len(lc)),
                traces_validated_against_impl=nontriv)
+    cov['rule'] += '; (e) package fpgen: random typed trees over float / double / long double / integer leaves given as raw bit patterns (boundary pools incl. NaNs with payloads, denormals, rounding ties) and one-operator cases on the case splits of the lemmas: run-time result bits = Coq/Flocq spec (NaN as is-NaN), -S body = the jump-level Coq model instruction by instruction, hardware bits = the Coq machine model bit for bit'
     return run.finish(cov,
         ['gcc 12 -O0 -frounding-math (SSE for float/double, x87 for long double, FLT_EVAL_METHOD 0) on the same CPU is the reference; both compilers leave NaN payloads to the hardware',
          'conversions whose result C11 leaves undefined (floating value out of range of the integer type, NaN to integer) are not generated'],
-        ['Coq 8.16.1 kernel, no axioms', 'tools/gen_casttable.py regenerates the cast table (all 11 x 11 rows) from codegen.c', 'the hardware primitives (cvtsi2sd, cvttsd2si, fild, fistp ... round to nearest even / truncate as the Intel SDM says) are the modelling assumption of the row theorems',
-         'SSE/x87 arithmetic instructions themselves are not modelled: operator results are compared with gcc on the same hardware'])
+        ['Coq 8.16.1 kernel; the theorems of Properties_C02.v use no axioms; those of Properties_C02_fpgen.v that speak about Flocq values depend on exactly the four standard-library axioms Flocq 4.1 inherits through the real numbers: ClassicalDedekindReals.sig_forall_dec, ClassicalDedekindReals.sig_not_dec, FunctionalExtensionality.functional_extensionality_dep, Classical_Prop.classic (Print Assumptions of every statement is in the evidence)',
+         'Model/X86Sse.v and Model/X87.v (SSE / x87 instruction semantics defined from Flocq operations with the x86 NaN rule) are my reading of the Intel SDM, validated on raw result bits by the tie; MXCSR / x87 control word at their defaults', 'tools/gen_casttable.py regenerates the cast table (all 11 x 11 rows) from codegen.c', 'the hardware primitives (cvtsi2sd, cvttsd2si, fild, fistp ... round to nearest even / truncate as the Intel SDM says) are the modelling assumption of the row theorems',
+         'long double subexpressions nested inside double expressions, x87 NaN payloads and the 80-bit encoding are outside the fpgen model (compared with gcc only)'])
 
 if __name__ == '__main__':
     sys.exit(main())
